@@ -58,11 +58,13 @@ def _jax():
 
 
 # ------------------------------------------------------------------------------------------------ objectives
-def _poly_fun(poly, n):
+def _poly_fun(poly, n, nan=None):
     jnp = _jax()["jnp"]
 
     def fflat(v):
         tot = 0.0
+        if nan is not None:      # 0*log(c - x_k): exactly 0 where x_k < c, NaN where x_k >= c (gradient stays finite)
+            tot = tot + 0.0 * jnp.log(nan[1] - v[nan[0]])
         for c, e in poly:
             term = c
             for i, k in enumerate(e):
@@ -101,7 +103,10 @@ def _mk(case):
         fflat = _trig_fun(case["trig"])
     else:
         poly = [(float(Fraction(m["c"])), m["e"]) for m in case["poly"]]
-        fflat = _poly_fun(poly, n)
+        nanspec = None
+        if case.get("nan"):
+            nanspec = (int(case["nan"]["coord"]), float(Fraction(case["nan"]["c"])))
+        fflat = _poly_fun(poly, n, nanspec)
     x0f = jnp.array([float(Fraction(v)) for v in case["x0"]], dtype=float)
     if k and 0 < k < n:
         x0 = jft.Vector({"a": x0f[:k], "b": (x0f[k:],)})
@@ -212,7 +217,7 @@ def _model_line(case):
     pin = bool(cg.get("pin_res", True))
     erf = case.get("erf", "default")
     return {"op": "ncg", "x0": case["x0"], "poly": case["poly"],
-            "cgfake": case.get("cgfake"),
+            "cgfake": case.get("cgfake"), "nan": case.get("nan"),
             "miniter": 0 if case.get("miniter") is None else case["miniter"],
             "maxiter": 200 if case.get("maxiter") is None else case["maxiter"],
             "absdelta": case.get("absdelta"), "xtol": rs(Fraction(case["xtol"]) * n),
@@ -243,7 +248,9 @@ def _trace_robust(case, m):
             # an exactly vanishing CG step after the first iteration (exact convergence of the rational run) is a
             # rounding event in floats: the float iterate carries a residual gradient of a few ulp
             return False
-        for te in it["trials"]:
+        for te, tn in zip(it["trials"], it.get("trialnan") or [False] * len(it["trials"])):
+            if tn:
+                continue          # a NaN trial is rejected by both: no float comparison involved
             te = _fl(te)
             if zero_step and te == e:
                 continue
@@ -571,6 +578,10 @@ def _gen_case(rng, quick, modelled=True):
                       "maxiter": rng.choice([None, None, 1, 2])}
     else:
         case["cg"] = None
+    if modelled and rng.random() < 0.25:
+        # NaN region x_k >= c of the objective (0*log(c - x_k)): trials landing there must be rejected, a NaN start raises
+        k = rng.randrange(n)
+        case["nan"] = {"coord": k, "c": rs(x0[k] + rng.choice([Fraction(1, 16), Fraction(1, 4), Fraction(1), Fraction(-1, 8)]))}
     if modelled and family != "flat" and rng.random() < 0.3:
         # the CG solver is an oracle for the minimiser: a fake one (scaled gradient, chosen info) drives the line search
         # into its halving / reset / abort branches
@@ -793,6 +804,8 @@ def _check(ctx, cases):
         ctx.stat("n=%d" % len(c["x0"]))
         if c.get("neartie"):
             ctx.stat("neartie_trial")
+        if c.get("nan"):
+            ctx.stat("nan_region")
         if c.get("trust_target"):
             ctx.stat("trust_slightly_uphill_trial")
         if c.get("reset_target"):
@@ -806,6 +819,8 @@ def _check(ctx, cases):
                 for it in m["trace"]:
                     if it is not None:
                         ctx.stat("trials=%d" % len(it["trials"]))
+                        if any(it.get("trialnan") or []):
+                            ctx.stat("nan_trial_rejected")
                         if _fl(it["curv"]) < 0:
                             ctx.stat("negative_curvature_iteration")
                         if not it["found"]:
